@@ -806,3 +806,152 @@ def strip_string_rewrites(term):
             continue
         break
     return t, names
+
+
+# ---------------------------------------------------------------------- path search that respects repeated tests
+def consistent_path(g, start, stops, avoid, limit=20000):
+    """like g.find_path(start, stops, avoid) but without paths that take two contradicting branches: the conditions under which `start` executes, and the
+    branches taken on the way, are remembered as facts (canonical atoms); a later test of the same atom can only go the same way while none of the names in it
+    has been re-bound, and a plain copy `x = y` hands the facts about y on to x. (Two `if record is None:` in a row - the second one written by a caller of a
+    helper that contained the first - are one decision, not two.)"""
+    import re as _re
+
+    facts0 = {}
+    for t, l in g.necessary_branches(start):
+        for a, l2 in atomic_deps(t.ast, l):
+            facts0[a] = l2
+
+    def _stores(node):
+        a = node.ast
+        out = set()
+        if a is None:
+            return out
+        if node.kind == "loop" and isinstance(a, ast.For):
+            roots = [a.target]
+        elif node.kind in ("test",):
+            roots = [x for x in ast.walk(a) if isinstance(x, ast.NamedExpr)]
+            roots = [x.target for x in roots]
+        else:
+            roots = [a]
+        for r in roots:
+            for x in ast.walk(r):
+                if isinstance(x, ast.Name) and isinstance(x.ctx, (ast.Store, ast.Del)):
+                    out.add(x.id)
+                elif isinstance(x, ast.Attribute) and isinstance(x.ctx, (ast.Store, ast.Del)):
+                    out.add(norm(x))
+        return out
+
+    def _mentions(atom, name):
+        return _re.search(r"(?<![\w.])" + _re.escape(name) + r"(?![\w])", atom) is not None
+
+    seen = set()
+    stack = [(start, tuple(sorted(facts0.items())), (start,))]
+    steps = 0
+    while stack:
+        n, facts_t, trail = stack.pop()
+        steps += 1
+        if steps > limit:
+            raise AnalysisError("consistent_path: search limit exceeded")
+        facts = dict(facts_t)
+        # effect of the node itself (not of the start node's own condition)
+        if n is not start or True:
+            st = _stores(n)
+            if st:
+                copy_from = None
+                a = n.ast
+                if n.kind == "stmt" and isinstance(a, ast.Assign) and len(a.targets) == 1 and isinstance(a.targets[0], ast.Name) and isinstance(a.value, ast.Name):
+                    copy_from = a.value.id
+                for k in list(facts):
+                    if any(_mentions(k, s_) for s_ in st):
+                        del facts[k]
+                if copy_from is not None:
+                    tgt = a.targets[0].id
+                    for k, v in list(facts.items()):
+                        if k == copy_from:
+                            facts[tgt] = v
+                        elif k == f"{copy_from} is None":
+                            facts[f"{tgt} is None"] = v
+        for m, l in n.succ:
+            nf = dict(facts)
+            if n.kind == "test" and l in ("T", "F"):
+                atoms = atomic_deps(n.ast, l)
+                if any(a_ in nf and nf[a_] != lab for a_, lab in atoms):
+                    continue
+                for a_, lab in atoms:
+                    nf[a_] = lab
+            if m.id in stops:
+                return list(trail) + [m]
+            if m.id in avoid:
+                continue
+            key = (m.id, tuple(sorted(nf.items())))
+            if key in seen:
+                continue
+            seen.add(key)
+            stack.append((m, key[1], trail + (m,)))
+    return None
+
+
+# ---------------------------------------------------------------------- conditions of one path, with path-local definitions put back
+def resolved_path_conditions(g, trail):
+    """([(test expression, label)], feasible) for the path `trail` (list of cfg nodes): every test is given with the names that the path itself bound
+    (`__ret__h = spec.match_file(rel)` ... `if __ret__h:`) replaced by the bound expression, as long as nothing the expression reads was re-bound in between;
+    a test that thereby becomes a constant decides feasibility (`__ret__h = False` ... `if __ret__h:` cannot take the true branch)."""
+    import copy as _copy
+
+    env = {}  # name -> (expr, position)
+    last_store = {}  # name -> position of its last binding on the path
+    out = []
+    feasible = True
+
+    def _free(e):
+        return {x.id for x in ast.walk(e) if isinstance(x, ast.Name)}
+
+    def _subst(e, pos, depth=0):
+        class _S(ast.NodeTransformer):
+            def visit_Name(self, node):
+                if isinstance(node.ctx, ast.Load) and node.id in env and depth < 4:
+                    val, at = env[node.id]
+                    if all(last_store.get(n_, -1) <= at for n_ in _free(val)):
+                        return _subst(_copy.deepcopy(val), pos, depth + 1)
+                return node
+
+        return _S().visit(e)
+
+    for i, n in enumerate(trail[:-1]):
+        nxt = trail[i + 1]
+        a = n.ast
+        if n.kind == "test":
+            lab = next((l for m, l in n.succ if m is nxt), None)
+            if lab in ("T", "F"):
+                t2 = _subst(_copy.deepcopy(a), i)
+                ast.fix_missing_locations(t2)
+                v = t2
+                neg = False
+                while isinstance(v, ast.UnaryOp) and isinstance(v.op, ast.Not):
+                    v, neg = v.operand, not neg
+                if isinstance(v, ast.Constant):
+                    truth = bool(v.value) != neg
+                    if truth != (lab == "T"):
+                        feasible = False
+                out.append((t2, lab))
+            for w in ast.walk(a):
+                if isinstance(w, ast.NamedExpr) and isinstance(w.target, ast.Name):
+                    last_store[w.target.id] = i
+                    env.pop(w.target.id, None)
+        elif n.kind == "stmt" and a is not None:
+            if isinstance(a, ast.Assign) and len(a.targets) == 1 and isinstance(a.targets[0], ast.Name):
+                nm = a.targets[0].id
+                val = _subst(_copy.deepcopy(a.value), i)
+                last_store[nm] = i
+                env[nm] = (val, i)
+            else:
+                for w in ast.walk(a):
+                    if isinstance(w, ast.Name) and isinstance(w.ctx, (ast.Store, ast.Del)):
+                        last_store[w.id] = i
+                        env.pop(w.id, None)
+        elif n.kind == "loop" and a is not None and isinstance(a, ast.For):
+            for w in ast.walk(a.target):
+                if isinstance(w, ast.Name):
+                    last_store[w.id] = i
+                    env.pop(w.id, None)
+    return out, feasible
